@@ -140,6 +140,35 @@ pub fn decompose_dbg(
     (o, st)
 }
 
+/// the same call with the library's OWN scalar, plain `f64` (code that exists only
+/// in `impl MomTropFloat for f64` - an overridden provided method, a specialised
+/// fast path - is reached by no newtype)
+pub fn decompose_plain(m: &MatCase, tol: Option<u64>, debug: bool) -> DecOutcome {
+    let mut sm = SquareMatrix::new_zeros_from_num(&0.0f64, m.dim);
+    for i in 0..m.dim {
+        for j in 0..m.dim {
+            sm[(i, j)] = f64::from_bits(m.entries[i * m.dim + j]);
+        }
+    }
+    let settings = TropicalSamplingSettings {
+        matrix_stability_test: tol.map(f64::from_bits),
+        print_debug_info: debug,
+        return_metadata: false,
+        ..Default::default()
+    };
+    let rawf = |x: &SquareMatrix<f64>| -> Vec<u64> { x.clone().get_raw_data().iter().map(|v| v.to_bits()).collect() };
+    match catch_unwind(AssertUnwindSafe(|| sm.decompose_for_tropical(&settings))) {
+        Ok(Ok(d)) => DecOutcome::Ok(Dec {
+            det: d.determinant.to_bits(),
+            inverse: rawf(&d.inverse),
+            qt: rawf(&d.q_transposed),
+            qti: rawf(&d.q_transposed_inverse),
+        }),
+        Ok(Err(e)) => DecOutcome::Err(format!("{:?}", e)),
+        Err(_) => DecOutcome::Panicked(String::new()),
+    }
+}
+
 /// all bits of a decomposition outcome (for "did the fault change it?")
 fn dec_bits(o: &DecOutcome) -> Vec<u64> {
     match o {
@@ -432,6 +461,28 @@ pub fn run_case(case: &Case) -> CaseResult {
                 if a == b {
                     violations.clear();
                     return CaseResult { violations, outcome: "fault_outside_decomposition", fired: st.fired };
+                }
+            }
+            // natural runs are judged a second time with the library's own plain f64
+            if faults.is_empty() {
+                match decompose_plain(mat, *tol, *debug) {
+                    DecOutcome::Ok(d) => {
+                        for mut v in judge_ok(&d, &mat.entries, mat.dim, *tol, true) {
+                            v.what = format!("plain f64 scalar: {}", v.what);
+                            violations.push(v);
+                        }
+                    }
+                    DecOutcome::Err(e) if tol.is_some() && !e.contains("ZeroDet") => {
+                        if let DecOutcome::Err(e0) = decompose_plain(mat, None, *debug) {
+                            if e0.contains("ZeroDet") {
+                                violations.push(V16 {
+                                    class: "zero-pivot-product-not-reported-as-zerodet".into(),
+                                    what: "plain f64 scalar: ZeroDet without the stability test, Unstable with it".into(),
+                                });
+                            }
+                        }
+                    }
+                    _ => {}
                 }
             }
             // the pivot product does not depend on the tolerance: a matrix that is
